@@ -138,6 +138,9 @@ def c11_case(rng, i):
                 fam.append([c11_label(rng, loader), c11_label(rng, loader)] + base)
     if rng.random() < 0.06:
         fam.append([])                                                      # the root
+    if rng.random() < 0.08:
+        # a deep entry (17..60 labels)
+        fam.append([bytes([rng.choice(b"abcxyz019")]) for _ in range(rng.choice([17, 18, 33, 60]))])
     fam = [[l for l in e if len(l) > 0] for e in fam]
     if loader:
         # no octet >= 0x80 and no white space at the edges of a line (bytes.TrimSpace is modelled for ASCII only)
@@ -197,6 +200,17 @@ def c11_case(rng, i):
             probes.append(e + [c11_label(rng)])
     for _ in range(rng.choice([0, 1, 2])):
         probes.append([c11_label(rng) for _ in range(rng.choice([0, 1, 2, 3]))])
+    # deep names: an entry (or nothing) below many short labels — total label counts around every power of two up to
+    # the 127 labels a 255-octet name can have (a matcher must walk ALL labels from the right, however many there are)
+    deep = []
+    if fam and rng.random() < 0.5:
+        e = rng.choice(fam)
+        d = rng.choice([15, 16, 17, 18, 31, 32, 33, 34, 63, 64, 65, 100, 126, 127])
+        k = max(0, d - len(e))
+        deep.append([bytes([rng.choice(b"abcxyz019")]) for _ in range(k)] + e)
+        if rng.random() < 0.5 and len(e) > 0:
+            # ... and the same depth with the entry NOT at the right end (must not match through a mis-aligned walk)
+            deep.append(e + [bytes([rng.choice(b"abcxyz019")]) for _ in range(k)])
     pn = []
     for p in probes:
         p = [l for l in p if 0 < len(l) <= 63]
@@ -207,6 +221,12 @@ def c11_case(rng, i):
         pn.append(bad_probe(rng))
     rng.shuffle(pn)
     pn = pn[:14]
+    for p in deep:
+        p = [l for l in p if 0 < len(l) <= 63]
+        while len(gens.raw_name(p)) > 254 and len(p) > 1:
+            p = p[1:] if len(p[0]) == 1 else p[:-1]
+        if len(gens.raw_name(p)) <= 254:
+            pn.append(gens.raw_name(p))
     lower = 0 if rng.random() < 0.15 else 1
     if loader:
         lines = []
